@@ -279,8 +279,8 @@ pub fn run(a: &Args, rep: &mut Report) {
         batch.clear();
     }
     INTERP_FAMILY.store(0, std::sync::atomic::Ordering::Relaxed);
-    if a.shard % 4 == 0 && !cfg!(miri) {
-        concurrent_helpers(rep, &mut rng, if q { 150 } else { 1500 });
+    if (a.shard % 4 == 0 || a.nshards <= 4) && !cfg!(miri) && crate::mon_par::par_mult() > 0 {
+        concurrent_helpers(rep, &mut rng, (if q { 150 } else { 1500 }) * crate::mon_par::par_mult());
     }
 }
 
